@@ -259,3 +259,30 @@ func H_c09_words_ctrl() {
 	symAssert(err == nil && bytes.Equal(raw, raw2), "re-serialising-yields-the-same-bytes")
 	symReach("end")
 }
+
+// C09 K3c: long subjects and attachment names (beyond any line-folding
+// threshold) with blanks — single and doubled — at symbolic positions
+func H_c09_long_values() {
+	total := [...]int{70, 76, 78, 80, 100, 120}[symInt(0, 5)]
+	gap := [...]string{" ", "  ", " \t "}[symInt(0, 2)]
+	at := total - 10 + symInt(0, 9) // position of the gap near the end ...
+	if symInt(0, 1) == 1 {
+		at = 60 + symInt(0, 19) // ... or around typical fold columns
+	}
+	symAssume(at > 0 && at < total-len(gap))
+	s := strings.Repeat("a", at) + gap + strings.Repeat("b", total-at-len(gap))
+	m := mkMsg("ABCDEFGHIJKL", "x", "body\r\n")
+	m.SetSubject(s)
+	symAssert(m.Subject() == s, "subject-accessor-returns-what-was-set")
+	name := s + ".txt"
+	m.AddFile(NewFile(name, []byte("d")))
+	raw, err := m.Bytes()
+	symAssert(err == nil, "serialise-ok")
+	var parsed Message
+	symAssert(parsed.ReadFrom(bytes.NewReader(raw)) == nil, "parse-ok")
+	symAssert(parsed.Subject() == s, "subject-round-trips")
+	symAssert(len(parsed.Files()) == 1 && parsed.Files()[0].Name() == name, "attachment-name-round-trips")
+	raw2, err := parsed.Bytes()
+	symAssert(err == nil && bytes.Equal(raw, raw2), "re-serialising-yields-the-same-bytes")
+	symReach("end")
+}
